@@ -399,7 +399,7 @@ def walkDispatch (P : Prims) (d : Desc) (s : St) : CM St :=
         match P.factorValue s1 >>= factorCount with
         | .error e => .error e
         | .ok n => iterN n (walkList P ms) s1
-    | _ => .error .other
+    | _ => .error .unknownDescr
   | .op id => operatorDescriptor P id s
   | .seq _ ms => walkList P ms s
   | .undefElem _ => .error .unknownDescr
